@@ -143,9 +143,9 @@ class FCase(Case):
 def sx_expr(e):
     k = e[0]
     if k == 'i' and e[1] < 0:
-        return '(c neg (i 0))'      # a negative literal is printed as (-n): a call of neg
+        return f'(c neg (i {-e[1]}))'      # a negative literal is printed as (-n): a call of neg
     if k in ('i', 'b', 's'):
-        return '(i 0)'
+        return cg.sexp_expr(e)
     if k == 'v':
         return f'(v {e[1]})'
     if k == 'c':
@@ -641,6 +641,38 @@ def t_forward_reenter():
             ('let', 'h2', ('c', 'outer', [('i', 100), ('v', 'h')]), None)]
 
 
+def t_lambda_hoist():
+    """KNOWN DEVIATION: a lambda is created (its defaults evaluated) when the enclosing scope is entered — its
+    `Declaration::Function` precedes the declaration that mentions it — not when the lambda expression is
+    evaluated: the default of a lambda in a branch that is not taken is still computed"""
+    lam = ('lam', [('x', INT, ('c', 'display', [('i', 5)]))], [], ('v', 'x'), INT)
+    f = ('fn', 'f', [('c', 'bool', None)], INT, [], ('c', 'if', [('v', 'c'), ('ce', lam, []), ('i', 0)]))
+    return [f, ('let', 'r', ('c', 'f', [('b', False)]), INT), ('let', 's', ('c', 'f', [('b', True)]), INT)]
+
+
+def cell_level(chk, res):
+    """fourth party: the cell-level run-time model (XrayModel/CellRun.lean) on the program compiled by the scope
+    model, against the implementation.  It is the literal reading of runtime_scope.rs, so it is expected to agree with
+    the implementation also where the implementation deviates from the documented semantics (pending captures)."""
+    lines = [f"scope run - - - 1 3000000 " + scope_sexp(c.ds) for (c, ci, cm, co, ev) in res]
+    out = run_model(lines, timeout=3600)
+    agree = 0
+    for (c, ci, cm, co, ev), line in zip(res, out):
+        chk.evaluations += 1
+        cc = cg.canon_model(line, c.names)
+        ok = cg.same(cc, ci)
+        if not ok and ci["outcome"].startswith("panic") and cc["outcome"].startswith("stuck:"):
+            # a Rust panic is `stuck` in the model: same message
+            ok = cc["outcome"][6:] in ci["outcome"]
+        if ok:
+            agree += 1
+            chk.count("cell:" + ("agrees-on-deviation" if not cg.same(ci, co) and not co["outcome"].startswith("oracle-") else "agrees"))
+        else:
+            chk.violation(f"tie:cell:{c.tag}", f"cell-level run-time model disagrees with the implementation ({c.tag}): model={json.dumps(cc)[:500]} impl={json.dumps(ci)[:500]}",
+                          dict(c.replay(), cell_model_request=lines[0][:0] + "scope run - - - 1 3000000 " + scope_sexp(c.ds), impl=ci, model=cc), no_input=True)
+    chk.coverage["cell_level_agreements"] = agree
+
+
 GATE_PROGRAMS = [
     # (name, source, expected) : expected = "MissingForwardImplementation" or "ok"
     ("call-before", "forward fn g(x:int)->int; let r = g(1); fn g(x:int)->int{ x+1 }", "MissingForwardImplementation"),
@@ -750,7 +782,7 @@ def run(chk):
     chk.trusted += [
         "checklib/coregen.py RefEval (+ forward declarations in checklib/c03.py FwdEval): independent Python evaluator of the documented semantics (oracle)",
         "the scope model covers the user's names; the library's cells are projected out of the compiler's dump (checklib/c03.py Projector) and overload resolution by argument types is C05's subject",
-        "closure/default theorems are about the named-level core model (XrayModel/Core.lean)",
+        "closure/default theorems are about the named-level core model (XrayModel/Core.lean); the cell-level model (XrayModel/CellRun.lean) is tied as a fourth party",
         "Driver/Scope.lean, Driver/Core.lean use `partial` for S-expression decoding and printing (glue, not part of the model)",
         "the interner (identifier spelling -> symbol) is modelled and proved injective in C12/C18's Lex model (XrayModel/Lex.lean); here it is tied by the spelling sweep",
     ]
@@ -781,6 +813,7 @@ def run(chk):
     cases.append(FCase(t_forward_escape(0), "fwd-escape"))
     cases.append(FCase(t_forward_escape(1), "fwd-escape"))
     cases.append(FCase(t_forward_reenter(), "fwd-reenter"))
+    cases.append(FCase(t_lambda_hoist(), "lam-hoist"))
 
     def nontrivial(c, ev):
         return c.tag != "gen" or 'lam' in json.dumps(c.ds) or '->{' in c.src
@@ -795,6 +828,9 @@ def run(chk):
     for c, ci, cm, co, ev in res:
         if c.tag != "gen" and co["outcome"].startswith("oracle-"):
             chk.violation(f"machinery:oracle:{c.tag}", f"the reference evaluator cannot run a targeted program: {co['outcome']}", c.replay(), no_input=True)
+
+    # ---- fourth party: the cell-level run-time model on the compiled program
+    cell_level(chk, res)
 
     # ---- forward gate
     forward_gate(chk)
